@@ -525,5 +525,9 @@ def run_encode_sink(facts, rep, floor=1):
                               "plaintext is not valid for the context" % why, facts.loc(p, x))
             else:
                 rep.unresolved(RR, key, "stored coefficient not classified: %s" % why, facts.loc(p, x))
-    rep.floor(RR, "coefficient stores of encode_polynomial", n, floor)
+    if n == 0:
+        # stores written through iterator bindings (`*coeff = ..` over data_mut().iter_mut().zip(values)) are not read yet
+        rep.unresolved(RR, "encode_polynomial/stores", "no indexed store into the destination recognised (iterator form?): not judged",
+                       "src/batch_encoder.rs:0")
+    rep.floor(RR, "coefficient stores of encode_polynomial", n, 0)
     return n
